@@ -3,7 +3,7 @@
 import glob, json, os, re
 ROOT = os.path.dirname(os.path.dirname(os.path.abspath(__file__)))
 rows = []
-for d in sorted(glob.glob(os.path.join(ROOT, "seeded", "*"))):
+for d in sorted(glob.glob(os.path.join(ROOT, "seeded", "C*"))):
     i = os.path.basename(d)
     try:
         m = json.load(open(os.path.join(d, "meta.json")))
